@@ -141,25 +141,10 @@ class C11(Check):
             if m[0] == 1 and m[1] in (101, 177):
                 raise RuntimeError(f"C11: case outside the model (code {m[1]}): {self.show(c)}")
             self._valid[id(c)] = bool(rest[1]) if len(rest) > 1 else True
-            if fi == ["empty_piece_list_raises"] and self._known_entry():
-                # a recorded finding (D17 before it was repaired): the first occurrences go through the shared verdict logic (which prints
-                # the KNOWN-FINDING line); further ones are only counted, so that they do not end the run early
-                self._known_seen += 1
-                if self._known_seen > 3:
-                    fi = []
             out.append((c, o, norm_res(m), fm, fi, rest))
         return out
 
     _valid = {}
-    _known_seen = 0
-
-    def _known_entry(self):
-        return any(e.get("property") == "C11" and e.get("status") == "known"
-                   and e.get("clause") == "empty_piece_list_raises" for e in common.load_known())
-
-    def extra_checks(self, tier, rng, report):
-        report["extra"]["known_finding_occurrences"] = self._known_seen
-
     def model_should_hold(self, c):
         return self._valid.get(id(c), True)
 
